@@ -183,12 +183,25 @@ def tools_check(d, hexpath, inp, h):
     sig = pub.ecdsa_signature_normalize(sig)[1]
     if not pub.ecdsa_verify(digest, sig, raw=True):
         return "signature by `signapp key` does not verify over the Keccak digest of the specified message"
-    # one-time signing of this image plus copies of it under other names
-    apps = [hexpath]
+    # one-time signing of this image, of copies of it under other names, and of DIFFERENT images that carry
+    # the same file name in other directories (each signature must be over its own image's hash)
+    import hashlib
+    apps, want = [hexpath], {hexpath: h}
     for k in range(inp.get("extra_images", 0)):
-        q = os.path.join(d, "app%d.hex" % k)
-        shutil.copy(hexpath, q)
+        if k % 2 == 0:
+            q = os.path.join(d, "app%d.hex" % k)
+            shutil.copy(hexpath, q)
+            want[q] = h
+        else:
+            os.makedirs(os.path.join(d, "sub%d" % k), exist_ok=True)
+            q = os.path.join(d, "sub%d" % k, os.path.basename(hexpath))
+            payload = bytes([k, 0xA5, len(inp["image"]) & 0xFF, 7])
+            with open(q, "w") as f:
+                f.write(":020000040000FA\n" + rec_line(4, 0x20, 0, payload) + "\n:00000001FF\n")
+            want[q] = hashlib.sha256(payload).digest()
         apps.append(q)
+    if inp.get("extra_images", 0) % 2 == 1:
+        apps.reverse()
     pubs = []
     for run in range(2):
         pk = os.path.join(d, "pub%d.txt" % run)
@@ -200,15 +213,15 @@ def tools_check(d, hexpath, inp, h):
         for a in apps:
             sighex = open(a + ".sig").read().strip()
             try:
-                vk.verify_digest(bytes.fromhex(sighex), h, sigdecode=ecdsa.util.sigdecode_der)
+                vk.verify_digest(bytes.fromhex(sighex), want[a], sigdecode=ecdsa.util.sigdecode_der)
             except Exception:
-                return "one-time signature of %s does not verify under the written public key" % os.path.basename(a)
+                return "one-time signature of %s does not verify under the written public key" % os.path.relpath(a, d)
         pubs.append(pubhex)
         # the private key is written nowhere: no file in the directory may contain 32 bytes that
         # generate this public key — check every 64-hex-digit run in every file
         import re
-        for fn in os.listdir(d):
-            txt = open(os.path.join(d, fn), errors="replace").read()
+        for fn in [os.path.join(r_, f_) for r_, _d, fs_ in os.walk(d) for f_ in fs_]:
+            txt = open(fn, errors="replace").read()
             for m in re.finditer(r"[0-9a-fA-F]{64}", txt):
                 try:
                     cand = ecdsa.SigningKey.from_string(bytes.fromhex(m.group(0)), curve=ecdsa.SECP256k1)
